@@ -47,14 +47,33 @@ class HyWorld:
         self.nbuf = 0
         self.W.copy_bytes = True  # buffer-to-buffer copies carry the known words along
 
+        self.atom_buf = {}  # base atom of an allocation -> name of the buffer it was made in
+        h_alloc = self.I.call_hooks["allocate_on_buffer"]
+
+        def tagging_allocate(interp, args, kwargs):
+            buf, pos = h_alloc(interp, args, kwargs)
+            pp = pol(pos) if not isinstance(pos, str) else None
+            if pp is not None and len(pp.atoms()) == 1 and isinstance(buf, Obj):
+                self.atom_buf.setdefault(str(list(pp.atoms())[0]), buf.name)
+            return buf, pos
+
+        self.I.call_hooks["allocate_on_buffer"] = tagging_allocate
+
         def distinct_allocations(d):
             # positions are `base_k + const` with one base atom per allocation: two positions inside DIFFERENT
-            # allocations are never equal (allocations do not overlap; every constant used here is inside its object)
-            ats = d.atoms()
-            if ats and all(str(a).startswith("off") for a in ats):
+            # allocations OF ONE BUFFER are never equal (allocations do not overlap; every constant used here is
+            # inside its object).  Offsets in two DIFFERENT buffers are unrelated numbers: they may coincide (the same
+            # structure built in the same order in two buffers) -- such a comparison is undecided and both outcomes
+            # are explored (seeded C08-e compared offsets across buffers)
+            ats = [str(a) for a in d.atoms()]
+            if ats and all(a.startswith("off") for a in ats):
+                bufs = {self.atom_buf.get(a) for a in ats}
+                if len(ats) == 2 and None not in bufs and len(bufs) == 2 and self.cross_buffer_coincidence:
+                    return None
                 return False
             return None
 
+        self.cross_buffer_coincidence = True
         self.I.eq_oracle = distinct_allocations
 
         self.epoch = {}
@@ -667,6 +686,37 @@ def op_ref_plain_data(hw, st):
     return out
 
 
+def op_ref_same_nested(hw, st):
+    """the reference field of a NESTED part is bound: wrap.h.r = <Leaf of wrap's buffer>"""
+    I = hw.I
+    part, leaf = I.getattr(st["wrap"], "h"), st["leaf3"]
+    if hw.loc(leaf.attrs["_xobject"])[0] is not hw.loc(st["wrap"].attrs["_xobject"])[0]:
+        return []  # an earlier move took leaf3 elsewhere: nothing to do here (refusals are ref-foreign's matter)
+    I.setattr(part, "r", leaf)
+    out = []
+    if I.getattr(I.getattr(st["wrap"], "h"), "r") is not leaf:
+        out.append("wrap.h.r = <Leaf of the same buffer>: the attribute is not the assigned object (a reference shares it)")
+    st["leaf3_referenced"] = True
+    return out
+
+
+def op_assign_plain_nested(hw, st):
+    """plain data assigned to a nested part that has a reference field, the reference cleared by the data:
+    wrap.h = {k: 7, r: None}; the part's reference attribute must show None whatever it showed before (seeded C18-e
+    skipped the re-dressing of fixed-size parts, whose cached referent then survived)"""
+    I = hw.I
+    I.setattr(st["wrap"], "h", {"k": 7.0, "r": None})
+    out = []
+    part = I.getattr(st["wrap"], "h")
+    if I.getattr(part.attrs["_xobject"], "r") is not None:
+        out.append("wrap.h = {k: 7, r: None}: the stored reference is not null")
+    if I.getattr(part, "r") is not None:
+        out.append(f"wrap.h = {{k: 7, r: None}}: wrap.h.r still shows {I.getattr(part, 'r')!r} although the stored reference is null")
+    if I.getattr(part, "k") != 7.0:
+        out.append(f"wrap.h = {{k: 7, r: None}}: wrap.h.k reads {I.getattr(part, 'k')!r}")
+    return out
+
+
 def op_assign_raw_struct(hw, st):
     """a plain struct object (not dressed) of the same size but with its dynamic parts split differently is
     assigned to a nested field: the dressed part must follow the new layout"""
@@ -739,6 +789,8 @@ OPS = {
     "ref-null": op_ref_null,
     "ref-plain-data": op_ref_plain_data,
     "assign-raw-struct": op_assign_raw_struct,
+    "ref-same-nested": op_ref_same_nested,
+    "assign-plain-nested": op_assign_plain_nested,
     "grow-buffer": op_grow,
     "set-array": op_set_array,
     "state-roundtrip": op_state_roundtrip,
@@ -812,16 +864,28 @@ def run_history(model, hist):
                 break
 
     try:
-        res = I.explore(thunk, max_paths=4)
+        res = I.explore(thunk, max_paths=16)
     except AnalysisError as e:
         return found, f"{e}"
     except _Bad as e:
         return found, f"{e}"
     if len(res) != 1:
-        return found, f"{len(res)} evaluation paths (an undecided condition) in history {hist}"
-    if res[0]["exc"] is not None:
-        return found, f"history {hist}: construction raises {res[0]['exc'].etype}: {res[0]['exc']}"
-    return found, None
+        # the only forks accepted are "does an offset in one buffer equal an offset in another": both outcomes are
+        # possible layouts, every path is a real execution and a discrepancy on any of them counts
+        import re as _re
+
+        coincidence = lambda conds: conds and all(_re.fullmatch(r"(not \()?[-+ 0-9]*off\d*[-+ 0-9]* (==|!=) [-+ 0-9]*off\d*[-+ 0-9]*\)?", t) for t, _v in conds)
+        if not all(coincidence(r["conds"]) for r in res if r["conds"]) or sum(1 for r in res if not r["conds"]) > 1:
+            return found, f"{len(res)} evaluation paths (an undecided condition) in history {hist}: {[r['conds'][:2] for r in res][:2]}"
+    for r in res:
+        if r["exc"] is not None:
+            return found, f"history {hist}: construction raises {r['exc'].etype}: {r['exc']}"
+    seen, uniq = set(), []
+    for f in found:
+        if f not in seen:
+            seen.add(f)
+            uniq.append(f)
+    return uniq, None
 
 
 _MODEL_CACHE = {}
@@ -862,7 +926,7 @@ def _anchor(o):
     return "hybrid_class::HybridClass." + ("copy" if o.startswith("copy") else "move")
 
 
-@rule("HV", ["C18", "C20", "C09"], "hybrid objects mirror their buffer data after every history of {set field, nested assignment, reference assignment, copy, move}")
+@rule("HV", ["C18", "C20", "C09", "C08"], "hybrid objects mirror their buffer data after every history of {set field, nested assignment, reference assignment, copy, move}")
 def hv(cx):
     m = cx.m
     for _mod in ('hybrid_class', 'struct', 'array', 'ref', 'string', 'scalar', 'typeutils'):
@@ -873,7 +937,8 @@ def hv(cx):
     hs = list(histories(maxlen))
     # C18 is decided on every history; for C20 / C09 the quick tier keeps the histories that end in the operation the
     # property is about (state round trip / copies and by-value assignments), after any first step
-    focus = {"C20": ("state-roundtrip",), "C09": ("copy", "copy-holder", "construct-with-nested", "construct-with-dressed", "assign-foreign", "assign-holder")}.get(cx.prop)
+    focus = {"C08": ("ref-same", "ref-foreign", "ref-null", "ref-plain-data", "ref-same-nested", "assign-plain-nested", "assign-holder", "construct-with-dressed", "copy-holder", "move-holder", "move-referent"),
+             "C20": ("state-roundtrip",), "C09": ("copy", "copy-holder", "construct-with-nested", "construct-with-dressed", "assign-foreign", "assign-holder")}.get(cx.prop)
     if focus and cx.tier != "thorough":
         hs = [h for h in hs if h[-1] in focus]
         cx.partial = True
